@@ -17,7 +17,7 @@
    [pm_equiv]/[mequiv]: same owner, name, kind and value, timestamp, and the
    same tags up to order (a Go map has no order). *)
 From Coq Require Import ZArith List Bool Arith Lia Permutation.
-From Tally Require Import Base.Obs Base.Search Gen.Params Model.Varint Model.Thrift Model.Buckets Model.M3Pipe
+From Tally Require Import Base.ObsCore Base.Search Gen.Params Model.Varint Model.Thrift Model.Buckets Model.M3Pipe
   Proof.VarintP Proof.ThriftP Proof.BucketsP Proof.M3PipeP Proof.M3PipeIdP Proof.M3PipeWfP.
 Import ListNotations.
 Open Scope Z_scope.
